@@ -29,6 +29,10 @@ SPELL = {
     "addr": lambda: pt.Addr(GOOD_ADDR), "meth": lambda: pt.MethodSignature("f()void"),
     "tb": lambda: pt.Tmpl.Bytes("TMPL_B"), "bq": lambda: pt.Bytes('q"\\\n;//'),
     "bu": lambda: pt.Bytes("\u00e9\U0001f600"), "bs": lambda: pt.Bytes('\\"\x00\t'),
+    # byte strings whose TEXT is the text of a constant of another kind (method signature, address, hex
+    # literal, template name): equal spelling, different value
+    "bmeth": lambda: pt.Bytes("f()void"), "baddr": lambda: pt.Bytes(GOOD_ADDR), "b0x": lambda: pt.Bytes("0x61"),
+    "btm": lambda: pt.Bytes("TMPL_B"),
 }
 RANK_POOL = {
     "s0": lambda: pt.Int(0), "s1": lambda: pt.Int(1), "s2": lambda: pt.Int(2), "s3": lambda: pt.Int(3),
@@ -38,7 +42,7 @@ RANK_POOL = {
     "be": lambda: pt.Bytes("e"), "bf": lambda: pt.Bytes("base64", "Zg=="), "bT": lambda: pt.Tmpl.Bytes("TMPL_Y"),
 }
 INTS = ["i0", "i1", "i127", "i128", "imax", "optin", "pay", "ti"]
-BYTES = ["ba", "b16", "b64", "b32", "be", "be16", "addr", "meth", "tb", "bq", "bu", "bs"]
+BYTES = ["ba", "b16", "b64", "b32", "be", "be16", "addr", "meth", "tb", "bq", "bu", "bs", "bmeth", "baddr", "b0x", "btm"]
 
 
 def seq_program(names):
